@@ -8,6 +8,10 @@ From Coq Require Import String.
 From God Require Import Base.Prelude.
 Local Open Scope Z_scope.
 
+(* p2c.Name (p2c.go:22): the name the balancer registers under and the client's service config asks for.
+   Hand-transcribed; C14.Link proves the regenerated constant equal to it. *)
+Definition p2c_name : string := "p2c_ewma".
+
 (* grpc.DialOption values, by what they are *)
 Inductive dialopt :=
 | DInsecure                      (* grpc.WithTransportCredentials(insecure.NewCredentials())   client.go:93 *)
